@@ -877,6 +877,11 @@ func (rn *Runner) Run() {
 	if cfg.Variant == "lowercaps" { // the server spells its extension keywords in lower case; the scenario (and the model) count them as not advertised
 		scfg.Caps = append(scfg.Caps, "8bitmime", "smtputf8", "dsn", "enhancedstatuscodes")
 	}
+	if cfg.Variant == "bigehlo" { // a server with a long list of extensions: the EHLO reply has more than a hundred lines
+		for i := 0; i < 100; i++ {
+			scfg.Caps = append(scfg.Caps, fmt.Sprintf("X-VERIF-EXTENSION-%03d parameter", i))
+		}
+	}
 	if cfg.Redial { // the first dial of a redial scenario is fault-free: the script applies from the second connection on
 		scfg.FaultsFromConn = 2
 	}
